@@ -1,4 +1,4 @@
 #!/bin/bash
 # setup_cmd: build the Lean models, proofs and the compiled model driver from files on disk only (offline).
 cd "$(dirname "$0")/lean" && lake build 2>&1 | grep -v 'WARNING conda' | tail -5
-test -x .lake/build/bin/driver
+test -x .lake/build/bin/drv_C12
